@@ -901,6 +901,10 @@ class StrategyBase(Node):
             self.children[child].allocate(amount)
         # allocate to self
         else:
+            # the children's weights used below must reflect pending changes
+            if self.root.stale:
+                self.root.update(self.root.now, None)
+
             # adjust parent's capital
             # no need to update now - avoids repetition
             if self.parent == self:
@@ -946,6 +950,10 @@ class StrategyBase(Node):
             self.children[child].transact(q)
         # allocate to self
         else:
+            # the children's weights used below must reflect pending changes
+            if self.root.stale:
+                self.root.update(self.root.now, None)
+
             # push allocation down to children if any
             # use _weight to avoid triggering an update
             if self.children is not None:
